@@ -26,6 +26,7 @@ fn main() {
         Some("worker") => driver::cmd_worker(&args[1..]),
         Some("replay") => driver::cmd_replay(&args[1..]),
         Some("detlog") => driver::cmd_detlog(&args[1..]),
+        Some("journal") => driver::cmd_journal(&args[1..]),
         Some("one") => driver::cmd_one(&args[1..]),
         Some("selftest") => driver::cmd_selftest(&args[1..]),
         _ => {
